@@ -105,7 +105,9 @@ var corpusList = []scenario{
 	{"snapshot-layers-destruct-in-one-block", []op{setBal(0, 1), setState(0, 0, 1), setState(0, 1, 2), commit(true), suicide(0), fin(true), setBal(0, 1), setState(0, 1, 3), iroot(true), suicide(0), fin(true), setNonce(0, 1), setState(0, 2, 1), commit(true), readAll(), commitFlat(true), readAll()}},
 	{"snapshot-layers-storage-delete", []op{setNonce(0, 1), setState(0, 0, 1), setState(0, 1, 2), commitFlat(true), setState(0, 0, 0), commit(true), readAll(), setState(0, 1, 0), commitFlat(true), readAll()}},
 	{"sibling-commits", []op{setNonce(0, 1), setState(0, 0, 1), commit(true), cp(), on(0, setState(0, 0, 2)), on(1, setState(0, 0, 3)), on(1, setNonce(1, 1)), on(0, commit(true)), on(1, commit(true)), readAll(), on(0, setState(0, 1, 1)), on(0, commitFlat(true)), readAll(), on(1, setState(0, 1, 2)), on(1, commit(true)), readAll()}},
-	{"reader-across-flatten", []op{setNonce(0, 1), commit(true), setState(0, 0, 2), commit(true), cp(), on(0, setState(0, 1, 3)), on(0, commitFlat(true)), readAll(), on(0, setState(0, 0, 1)), on(0, commitFlat(true)), readAll(), on(1, setState(0, 2, 1)), on(1, commit(true)), readAll()}},
+	// w1 keeps reading at the root of the second commit while the canonical chain rewrites the same slot and flattens
+	{"reader-across-flatten", []op{setNonce(0, 1), commit(true), setState(0, 0, 2), setState(0, 1, 1), commit(true), cp(), on(0, setState(0, 0, 3)), on(0, setState(0, 1, 0)), on(0, commitFlat(true)), readAll(), on(0, setState(0, 0, 1)), on(0, commitFlat(true)), readAll(), on(1, setState(0, 2, 1)), on(1, commit(true)), readAll()}},
+	{"reader-across-partial-flatten", []op{setNonce(0, 1), commit(true), setState(0, 0, 2), commit(true), cp(), on(0, setState(0, 0, 3)), on(0, commit(true)), on(0, setState(0, 0, 1)), on(0, commitX(true, false, true, 1, 0)), readAll(), on(0, setState(0, 0, 2)), on(0, commitX(true, false, true, 2, 0)), readAll(), on(1, read(0))}},
 	{"intermediate-roots-between-txs", []op{setBal(0, 1), setState(0, 0, 1), iroot(true), setState(0, 0, 2), setState(1, 0, 1), iroot(true), suicide(0), iroot(true), setState(0, 0, 3), addBal(0, 0), iroot(true), readAll(), commit(true)}},
 	{"big-values", []op{setBal(0, 9), addBal(0, 9), setNonce(0, 9), setState(0, 3, 4), setState(0, 2, 5), setState(0, 1, 6), snap(), subBal(0, 9), setState(0, 3, 6), revert(0), commitCold(true), readAll(), commitFlat(true)}},
 }
